@@ -92,7 +92,8 @@ let handle (w : string list) : string =
   | ["rtext"; h] ->
     (* the pure text of Hostlist/HLRangedFit.v (theorem ranged_fit: what the printer lays down whenever it fits) *)
     (match create (bytes_of_hex h) with
-     | Ok hl -> let t = ranged_text hl.ranges in string_of_int (List.length t) ^ " " ^ hex_of_bytes t
+     | Ok hl -> let t = ranged_text hl.ranges in
+                (if printableb hl.ranges then "P " else "N ") ^ string_of_int (List.length t) ^ " " ^ hex_of_bytes t
      | _ -> "ERR")
   | ["gtexts"; h] ->
     (match create (bytes_of_hex h) with
